@@ -1,5 +1,6 @@
 import FsutilModel.Props.C07
 import FsutilModel.Props.C01
+import FsutilModel.SenderConcProof
 /-! # C04 — Faults: success is never reported for a partial tree (safety part) -/
 namespace Fsm.C04
 
@@ -16,5 +17,34 @@ theorem resume_converges (none : Bool) (leftover U : List StatE)
     (hL : D.Valid byteOrd (leftover.map StatE.toEnt)) (hU : D.Valid byteOrd (U.map StatE.toEnt)) :
     ∀ q, (diffB none leftover U).foldl (D.applyEv byteOrd) (D.toMap (leftover.map StatE.toEnt)) q = D.toMap (U.map StatE.toEnt) q :=
   C01.transfer_events_converge none leftover U hL hU
+
+/-! ## liveness after teardown (concrete, blocking model of the sender's goroutines) -/
+
+/-- Once the stream is torn down the sender cannot deadlock: in every well-formed state (≥ 1 worker, pipeline capacity ≥ 1)
+with some goroutine still alive, some goroutine can take a step — whatever the pipeline holds and however many
+requests are pending (> 132 included). -/
+theorem sender_no_deadlock_after_teardown (cap : Nat) (hcap : 0 < cap) (s : SC.St) (hwf : SC.WF s) (hw : s.workers ≠ [])
+    (ht : s.torn = true) (hnd : SC.allDone s = false) : ∃ t env, (SC.step true cap s t env).isSome = true :=
+  SC.teardown_progress cap hcap s hwf hw ht hnd
+
+/-- … and every step strictly decreases the variant `mu`, so under every scheduler all goroutines have ended after at
+most `mu s` steps: the call returns in bounded time and leaves no goroutine behind. -/
+theorem sender_terminates_after_teardown (fixed : Bool) (cap : Nat) (s s' : SC.St) (t : SC.Tid) (env : SC.Env)
+    (ht : s.torn = true) (hs : SC.step fixed cap s t env = some s') : SC.mu s' < SC.mu s :=
+  SC.teardown_decreases fixed cap s s' t env ht hs
+
+/-- the invariant used above is established initially and preserved by every step -/
+theorem sender_wf_invariant (fixed : Bool) (cap : Nat) (s s' : SC.St) (t : SC.Tid) (env : SC.Env) (hwf : SC.WF s)
+    (hs : SC.step fixed cap s t env = some s') : SC.WF s' :=
+  SC.wf_step fixed cap s s' t env hwf hs
+
+/-- F3 (kernel-checked): with the unconditional channel send of the code as it stood there is a well-formed state — all
+workers gone, pipeline full, receive loop pushing one more request — that is stuck for ever after teardown, while the
+repaired push leaves it. -/
+theorem unrepaired_sender_can_block_forever :
+    let s : SC.St := { walker := .exited, workers := [.exited], queue := [7], closed := false, recv := .push 8,
+                       cancelled := true, torn := true }
+    SC.allDone s = false ∧ (∀ t env, SC.step false 1 s t env = none) ∧ (∃ t env, (SC.step true 1 s t env).isSome = true) :=
+  SC.unrepaired_push_can_block_forever
 
 end Fsm.C04
